@@ -373,7 +373,7 @@ def clone_val(v):
     if isinstance(v, Tuple):
         return Tuple([clone_val(x) for x in v.items])
     if isinstance(v, Struct):
-        return Struct(v.ty, {k: clone_val(x) for k, x in v.fields.items()}, v.origin)
+        return Struct(v.ty, {k: (x if isinstance(x, int) else clone_val(x)) for k, x in v.fields.items()}, v.origin)
     if isinstance(v, Enum):
         return Enum(v.ty, v.variant, clone_val(v.payload) if v.payload is not None else None, v.origin, v.discr)
     if isinstance(v, Vec):
